@@ -208,8 +208,18 @@ def table():
             cell = f'**{own["verdict"]}** - {own["first_report"][:160].replace("|", "/")}'
         elif own:
             cell = f'**{own}**'
+        rd = meta.get('redemo')
+        if rd and not rd.get('still_demonstrable'):
+            cell += (f' - *no longer demonstrable at repo {rd["repo_head"]}: its own demonstration '
+                     + ('fails on the unchanged tree too' if rd.get('demo_without_change_rc') else 'passes with the change applied')
+                     + ' (a later `fix:` commit removed what it needed)*')
+        if meta.get('rebased'):
+            cell += f' - *patch re-applied by hand onto {meta["rebased"]["onto"]}*'
         rows.append(f'| {seed} | {meta["property"]} | {notes} | {cell} |')
-    out = '# Seeded changes and the checks that catch them\n\n' + '\n'.join(rows) + '\n'
+    head = sh(['git', '-C', '/repo', 'rev-parse', '--short', 'HEAD'])[1].strip()
+    out = ('# Seeded changes and the checks that catch them\n\n'
+           f'Own-property quick check run against a scratch copy of /repo ({head}) with the seeded patch applied '
+           '(`tools/seed.py sweep`).\n\n' + '\n'.join(rows) + '\n')
     open(os.path.join(SEEDED, 'RESULTS.md'), 'wt', encoding='utf-8').write(out)
     print(out)
     return 0
